@@ -243,10 +243,13 @@ AMarginal(i, dims) ==
 ALinearSum(i, qW, qb, bmode) ==
     LET p == heap[i] R == NumR(p)
         W == MkSeq(R, LAMBDA r : QM(qW[r]))
-        b == MkSeq(R, LAMBDA r : IF bmode = "none" THEN ZeroVec(Rows(W[r])) ELSE QV(qb[r]))
+        \* bmode "big": the offset a million times larger than the spread of Wx (formulations that subtract large
+        \* second moments cancel catastrophically; the law N(W mu + b, W Sigma W') does not depend on the size of b)
+        qb1 == IF bmode = "big" THEN [r \in DOMAIN qb |-> Q([a \in DOMAIN qb[r].n |-> 1000000 * qb[r].n[a]], qb[r].d)] ELSE qb
+        b == MkSeq(R, LAMBDA r : IF bmode = "none" THEN ZeroVec(Rows(W[r])) ELSE QV(qb1[r]))
         n == LinearSum(p, W, b)
     IN /\ IsPdf(p)
-       /\ Emit(Append(heap, n), Step("LinearSum", [i |-> i, W |-> qW, b |-> qb, bmode |-> bmode], NoObj,
+       /\ Emit(Append(heap, n), Step("LinearSum", [i |-> i, W |-> qW, b |-> qb1, bmode |-> bmode], NoObj,
                                      NextId, ExpectObj(n), 0, NoObj, NoObj))
 
 AEntropy(i) ==
@@ -354,15 +357,19 @@ ACondSlice(i, idx, codeIdx) ==
 
 \* points / observations: integer vectors from the second vector menu (exact)
 PointMenu(d) == VEC2(d)
+\* the same points 64 times further out (data offsets s >= 10): observations tens of standard deviations away from the
+\* model (log-densities of -1e3 .. -1e4: floors / clamps on log-normalisers, overflow guards)
+FarMenu(d) == [i \in DOMAIN VEC2(d) |-> Q([a \in 1..d |-> 64 * VEC2(d)[i].n[a]], VEC2(d)[i].d)]
+DataMenu(d, s) == IF s >= 10 THEN FarMenu(d) ELSE PointMenu(d)
 
 ACondOnX(i, N, s, via) ==
-    LET c == heap[i] qX == Pick(PointMenu(CDx(c)), N, s)
+    LET c == heap[i] qX == Pick(DataMenu(CDx(c), s), N, s)
         n == CondOnX(c, MkSeq(N, LAMBDA k : QV(qX[k])))
     IN /\ IsCond(c)
        /\ Emit(Append(heap, n), Step("CondOnX", [i |-> i, x |-> qX, via |-> via], NoObj, NextId, ExpectObj(n), 0, NoObj, NoObj))
 
 ASetY(i, N, s) ==
-    LET c == heap[i] qY == Pick(PointMenu(CDy(c)), N, s)
+    LET c == heap[i] qY == Pick(DataMenu(CDy(c), s), N, s)
         n == SetY(c, MkSeq(N, LAMBDA k : QV(qY[k])))
     IN /\ IsCond(c) /\ (CR(c) = 1 \/ CR(c) = N)
        /\ Emit(Append(heap, n), Step("SetY", [i |-> i, y |-> qY], NoObj, NextId, ExpectObj(n), 0, NoObj, NoObj))
